@@ -50,6 +50,7 @@ package blocktimeindex
 
 //@ func (*Index) Epoch
 //@   mode int
+//@   pure
 //@   ensures result == i.epoch
 
 // ---- codec ----
